@@ -489,6 +489,7 @@ func runDisc(c DiscCase) []ev.Violation {
 		status int
 		served string
 		err    error
+		info   string
 	}
 	probes := make(chan probeRes, c.Probes)
 	probeBody := fmt.Sprintf(`{"model":%q,"messages":[{"role":"user","content":"probe"}]}`, bOnly)
@@ -504,9 +505,10 @@ func runDisc(c DiscCase) []ev.Violation {
 				probes <- probeRes{err: err}
 				return
 			}
+			rb, _ := io.ReadAll(io.LimitReader(resp.Body, 300))
 			_, _ = io.Copy(io.Discard, resp.Body)
 			resp.Body.Close()
-			probes <- probeRes{status: resp.StatusCode, served: resp.Header.Get("X-Backend-Id")}
+			probes <- probeRes{status: resp.StatusCode, served: resp.Header.Get("X-Backend-Id"), info: fmt.Sprintf("mode=%s reason=%q body=%q", c.Mode, resp.Header.Get("X-Olla-Routing-Reason"), rb)}
 		}(i)
 	}
 	hung := round(A)
@@ -518,7 +520,7 @@ func runDisc(c DiscCase) []ev.Violation {
 	}
 	for p := range probes {
 		if p.err != nil || p.status != 200 || p.served != "B" {
-			bad("discovery/probe-not-served-during-poisoned-round/"+c.Kind, "probe for model %q of the good endpoint got status=%d served-by=%q err=%v while endpoint A (%s) returned %s", bOnly, p.status, p.served, p.err, c.TypeA, show([]byte(poison)))
+			bad("discovery/probe-not-served-during-poisoned-round/"+c.Kind, "probe for model %q of the good endpoint got status=%d served-by=%q err=%v (%s) while endpoint A (%s) returned %s", bOnly, p.status, p.served, p.err, p.info, c.TypeA, show([]byte(poison)))
 			break
 		}
 	}
